@@ -665,7 +665,22 @@ func checkMon(s monScript, h monHistory) (key, msg string, classes []string) {
 			}
 		}
 		if ai > 0 && attempts[ai-1].end == a.start {
-			caused = true
+			// directly behind the previous attempt: an immediate retry after a failed
+			// one, or the single follow-up for a restart requested while the previous
+			// restart (an attempt with its immediate retries) was running
+			prev := attempts[ai-1]
+			if !prev.ok {
+				caused = true
+			}
+			chainStart := prev.start
+			for j := ai - 1; j > 0 && !attempts[j-1].ok && attempts[j-1].end == attempts[j].start; j-- {
+				chainStart = attempts[j-1].start
+			}
+			for _, tr := range triggers {
+				if tr > chainStart && tr <= prev.end {
+					caused = true
+				}
+			}
 		}
 		if !caused {
 			return failf("C14/attempt-without-trigger", "restart attempt at %v has no cause: debounced triggers %v, previous attempt ended %v", a.start, triggers, func() any {
